@@ -70,7 +70,7 @@ deriving DecidableEq, Repr
 /-- generator bodies -/
 inductive Instr where
   | yld (i : Nat)                               -- observe the context, `yield i`
-  | rec (k : Nat)                               -- `ctx.record(M(k))`
+  | recd (k : Nat)                              -- `ctx.record(M(k))`
   | fail (base : Bool)                          -- `raise Boom` / `raise BaseBoom`
   | nop                                         -- `await sleep(0)`
   | block (k : BK) (v : Nat) (body : List Instr)
@@ -111,12 +111,20 @@ def isCompleted (nodes : List Node) (n : Nat) : Bool :=
   | some nd => nd.completed
   | none => false
 
-/-- `ScopeMetrics(parent=current)`; a completed scope no longer adopts nested scopes -/
-def mkNode (w : World) (name : Name) (cur : Option Nat) : World × Nat :=
-  let parent := match cur with
-    | some p => if isCompleted w.nodes p then none else some p
+/-- a completed scope cannot wait for nested scopes any more: the nearest ancestor that is not completed
+(`while parent is not None and parent._completed.done(): parent = parent._parent`); parents have smaller ids -/
+def liveAncestor : Nat → List Node → Option Nat → Option Nat
+  | 0, _, _ => none
+  | _ + 1, _, none => none
+  | fuel + 1, nodes, some p =>
+    match nodes[p]? with
+    | some nd => if nd.completed then liveAncestor fuel nodes nd.parent else some p
     | none => none
-  ({ w with nodes := w.nodes ++ [{ name := name, parent := parent }] }, w.nodes.length)
+
+/-- `ScopeMetrics(parent=current)`: registered under the current scope, or its nearest open ancestor -/
+def mkNode (w : World) (name : Name) (cur : Option Nat) : World × Nat :=
+  ({ w with nodes := w.nodes ++ [{ name := name, parent := liveAncestor (w.nodes.length + 1) w.nodes cur }] },
+   w.nodes.length)
 
 def childrenOf (nodes : List Node) (n : Nat) : List Nat :=
   (List.range nodes.length).filter (fun i => match nodes[i]? with
@@ -236,7 +244,7 @@ mutual
 /-- one instruction in context `c` (the resumer's) -/
 def runI (path : List Nat) : Instr → Ctx → World → Res
   | .yld i, c, w => .yielded i (fpOf c w) [] [] c w
-  | .rec k, c, w => .finished c (record w c k)
+  | .recd k, c, w => .finished c (record w c k)
   | .fail base, c, w => .raised (if base then .baseBoom else .boom) c w
   | .nop, c, w => .finished c w
   | .block k v body, c, w =>
@@ -310,6 +318,11 @@ structure Strm where
   status : Status := .unstarted
   consumer : Nat := 0
   stack : List Entry := []
+  -- ghost fields (never read by the transitions): what the consumer received so far, how the body ended,
+  -- whether the stream was closed / dropped before its end
+  delivered : List Nat := []
+  exc : Option Exc := none
+  cut : Bool := false
 deriving Repr
 
 structure Task where
@@ -355,82 +368,90 @@ abbrev Gens := List (List Instr)
 def setTask (s : Sys) (t : Nat) (tk : Task) : Sys := { s with tasks := update s.tasks t tk }
 def setStrm (s : Sys) (h : Nat) (st : Strm) : Sys := { s with streams := update s.streams h st }
 
+/-- the stream after one `__anext__` with outcome `o` (ghost bookkeeping included) -/
+def Strm.after (st : Strm) (t : Nat) (o : Outcome) (stack : List Entry) : Strm :=
+  match o with
+  | .item i _ => { st with status := .running, consumer := t, stack := stack, delivered := st.delivered ++ [i] }
+  | .stop => { st with status := .done, consumer := t, stack := [], exc := none }
+  | .err e => { st with status := .done, consumer := t, stack := [], exc := some e }
+
+/-- the stream's own block, entered in the context `c` of the first `__anext__` -/
+def startEntry (st : Strm) (h : Nat) (c : Ctx) : Entry × Ctx :=
+  let fc := startStream st.node (.stream st.g [h]) c
+  ({ pc := st.body, frame := fc.1, path := [h], isStream := true }, fc.2)
+
+/-- the suspended generator and the context its next resumption runs in -/
+def resumePoint (st : Strm) (h : Nat) (c : Ctx) : List Entry × Ctx :=
+  if st.status = .unstarted then ([(startEntry st h c).1], (startEntry st h c).2) else (st.stack, c)
+
+/-- `__anext__` of a stream that has not ended, called by task `t` whose context is `c` -/
+def nextOn (st : Strm) (h t : Nat) (c : Ctx) (w : World) : Outcome × Strm × Ctx × World :=
+  let r := resume (resumePoint st h c).1 (resumePoint st h c).2 w
+  (r.1, st.after t r.1 r.2.1, r.2.2.1, r.2.2.2)
+
+/-- the operation `op` of task `t`, whose state is `tk` -/
+def stepOp (gens : Gens) (s : Sys) (idx : Nat) (t : Nat) (tk : Task) : Op → Sys × Obs
+  | .enterA v =>
+    let r := enterScope true (.task idx) (.task idx) v tk.ctx s.world
+    (setTask { s with world := r.2.2 } t { ctx := r.2.1, frames := r.1 :: tk.frames }, .ok)
+  | .enterS v =>
+    let r := enterScope false (.task idx) (.task idx) v tk.ctx s.world
+    (setTask { s with world := r.2.2 } t { ctx := r.2.1, frames := r.1 :: tk.frames }, .ok)
+  | .enterU v =>
+    let r := enterUpd v tk.ctx
+    (setTask s t { ctx := r.2, frames := r.1 :: tk.frames }, .ok)
+  | .exit =>
+    match tk.frames with
+    | [] => (s, .bad)
+    | f :: fs =>
+      let r := exitFrame f tk.ctx s.world
+      (setTask { s with world := r.2 } t { ctx := r.1, frames := fs }, .ok)
+  | .mk h g =>
+    match lookup s.streams h, gens[g]? with
+    | none, some body =>
+      let r := mkNode s.world (.gen g) tk.ctx.metrics
+      (setStrm { s with world := r.1 } h { g := g, body := body, node := r.2 }, .ok)
+    | _, _ => (s, .bad)
+  | .next h =>
+    match lookup s.streams h with
+    | none => (s, .bad)
+    | some st =>
+      if st.status = .done then (s, .out .stop)
+      else if st.status = .dropped then (s, .bad)
+      else if st.status = .running ∧ st.consumer ≠ t then (s, .bad)
+      else
+        let r := nextOn st h t tk.ctx s.world
+        (setStrm (setTask { s with world := r.2.2.2 } t { tk with ctx := r.2.2.1 }) h r.2.1, .out r.1)
+  | .close h =>
+    match lookup s.streams h with
+    | none => (s, .bad)
+    | some st =>
+      match st.status with
+      | .done => (s, .ok)
+      | .dropped => (s, .bad)
+      | .unstarted => (setStrm s h { st with status := .done, cut := true }, .ok)
+      | .running =>
+        if st.consumer ≠ t then (s, .bad) else
+        let r := unwind (closeEntries st.stack) tk.ctx s.world
+        (setStrm (setTask { s with world := r.2 } t { tk with ctx := r.1 }) h
+          { st with status := .done, stack := [], cut := true }, .ok)
+  | .abandon h =>
+    match lookup s.streams h with
+    | none => (s, .bad)
+    | some st =>
+      if st.status = .dropped then (s, .bad) else
+      (setStrm s h { st with status := .dropped, stack := [], cut := st.cut || st.status != .done }, .ok)
+  | .probe => (s, .fp (fpOf tk.ctx s.world))
+  | .spawn j =>
+    match lookup s.tasks j with
+    | some _ => (s, .bad)
+    | none => (setTask s j { ctx := tk.ctx, frames := [] }, .ok)
+
 /-- one label; `idx` = position of the label in the run (names the scope a task enters) -/
 def step (gens : Gens) (s : Sys) (idx : Nat) (l : Label) : Sys × Obs :=
   match lookup s.tasks l.task with
   | none => (s, .dead)
-  | some tk =>
-    let t := l.task
-    match l.op with
-    | .enterA v =>
-      match enterScope true (.task idx) (.task idx) v tk.ctx s.world with
-      | (f, c, w) => (setTask { s with world := w } t { ctx := c, frames := f :: tk.frames }, .ok)
-    | .enterS v =>
-      match enterScope false (.task idx) (.task idx) v tk.ctx s.world with
-      | (f, c, w) => (setTask { s with world := w } t { ctx := c, frames := f :: tk.frames }, .ok)
-    | .enterU v =>
-      match enterUpd v tk.ctx with
-      | (f, c) => (setTask s t { ctx := c, frames := f :: tk.frames }, .ok)
-    | .exit =>
-      match tk.frames with
-      | [] => (s, .bad)
-      | f :: fs =>
-        let r := exitFrame f tk.ctx s.world
-        (setTask { s with world := r.2 } t { ctx := r.1, frames := fs }, .ok)
-    | .mk h g =>
-      match lookup s.streams h, gens[g]? with
-      | none, some body =>
-        let r := mkNode s.world (.gen g) tk.ctx.metrics
-        (setStrm { s with world := r.1 } h { g := g, body := body, node := r.2 }, .ok)
-      | _, _ => (s, .bad)
-    | .next h =>
-      match lookup s.streams h with
-      | none => (s, .bad)
-      | some st =>
-        match st.status with
-        | .done => (s, .out .stop)
-        | .dropped => (s, .bad)
-        | .unstarted =>
-          let fc := startStream st.node (.stream st.g [h]) tk.ctx
-          let e : Entry := { pc := st.body, frame := fc.1, path := [h], isStream := true }
-          match resume [e] fc.2 s.world with
-          | (o, stack, c, w) =>
-            let st' := match o with
-              | .item _ _ => { st with status := .running, consumer := t, stack := stack }
-              | _ => { st with status := .done, consumer := t, stack := [] }
-            (setStrm (setTask { s with world := w } t { tk with ctx := c }) h st', .out o)
-        | .running =>
-          if st.consumer ≠ t then (s, .bad) else
-          match resume st.stack tk.ctx s.world with
-          | (o, stack, c, w) =>
-            let st' := match o with
-              | .item _ _ => { st with stack := stack }
-              | _ => { st with status := .done, stack := [] }
-            (setStrm (setTask { s with world := w } t { tk with ctx := c }) h st', .out o)
-    | .close h =>
-      match lookup s.streams h with
-      | none => (s, .bad)
-      | some st =>
-        match st.status with
-        | .done => (s, .ok)
-        | .dropped => (s, .bad)
-        | .unstarted => (setStrm s h { st with status := .done }, .ok)
-        | .running =>
-          if st.consumer ≠ t then (s, .bad) else
-          let r := unwind (closeEntries st.stack) tk.ctx s.world
-          (setStrm (setTask { s with world := r.2 } t { tk with ctx := r.1 }) h
-            { st with status := .done, stack := [] }, .ok)
-    | .abandon h =>
-      match lookup s.streams h with
-      | none => (s, .bad)
-      | some st =>
-        if st.status = .dropped then (s, .bad) else
-        (setStrm s h { st with status := .dropped, stack := [] }, .ok)
-    | .probe => (s, .fp (fpOf tk.ctx s.world))
-    | .spawn j =>
-      match lookup s.tasks j with
-      | some _ => (s, .bad)
-      | none => (setTask s j { ctx := tk.ctx, frames := [] }, .ok)
+  | some tk => stepOp gens s idx l.task tk l.op
 
 /-- a run: the labels in execution order, each with its position -/
 def runFrom (gens : Gens) : Sys → Nat → List Label → Sys × List Obs
